@@ -262,6 +262,18 @@ pub fn run(o: &Opts, rng: &mut Rng) -> Sink {
             let raw = match e { 0 => good_text.clone(), 1 => format!("\"{}\"", good_text), _ => format!("W/\"{}\"", good_text) };
             push(&mut sink, line(&keys_tok, kid, &nonce, &req, &resp, Some(raw.as_bytes())), format!("authentic/enc{}/keys{}", e, nkeys), "authentic");
         }
+        if case == 0 {
+            // every short header value over the characters the ETag grammar gives a meaning to
+            let alphabet: &[u8] = b"\"W/:a0";
+            let maxlen = if o.thorough { 5 } else { 4 };
+            let mut frontier: Vec<Vec<u8>> = vec![vec![]];
+            for len in 0..=maxlen {
+                for v in &frontier {
+                    push(&mut sink, line(&keys_tok, kid, &nonce, &req, &resp, Some(v)), format!("short-etag/{}/{}", len, String::from_utf8_lossy(v)), "short-etag");
+                }
+                if len < maxlen { frontier = frontier.iter().flat_map(|v| alphabet.iter().map(move |c| { let mut x = v.clone(); x.push(*c); x })).collect(); }
+            }
+        }
         push(&mut sink, format!("verifysig {} {} {} {} {} {}", keys_tok, kid, hexb(&nonce), hexb(&req), hexb(&resp), hexb(&der)), format!("verifysig-authentic/{}", case % 7), "verifysig");
         push(&mut sink, format!("sha256 {}", hexb(&req)), format!("sha256/len{}", req.len()), "sha256");
         // mutations
